@@ -566,6 +566,10 @@ impl Receiver {
     /// Already sent message will still be received.
     pub async fn close(&mut self) {
         if !self.closed {
+            // A credit return that is waiting for queue space must be completed first,
+            // since it is queued ahead of the following message but only polled by us.
+            self.credits.return_flush().await;
+
             let _ = self.tx.send(PortEvt::ReceiverClosed { local_port: self.local_port }).await;
             self.closed = true;
         }
